@@ -185,6 +185,26 @@ AREAS["C12"] = {'area': 'c12',
                  'of the model',
                  'nested groups are matched to the depth the generator produces (5); protobuf-go skips groups recursively without a depth limit']}
 
+AREAS["C02"] = {
+    "area": "c02", "id": 2,
+    "coq": ["Base", "Store", "Sync", "Properties/C02.v"],
+    "rule": "two real instances (embedded NATS + store each) linked by the real client.SyncClient (period 1 s) driven without a manager; histories: a tree built from the downstream "
+            "side with the link up, then either more two-sided writes with the link up or an outage (sync disabled) with writes on both sides (node points on shared identities, "
+            "edge points, nodes created on either side, a child deleted downstream or upstream) followed by catch-up; after every link-up phase the harness waits until both dumps of "
+            "the device tree are unchanged for 2.4 s (at least 3.5 s, at most 25 s) and a history whose last phase did not converge is re-run once from fresh instances; a history is "
+            "non-trivial when it has more than one phase; distinct by (kind, number of requests, number of nodes)",
+    "trusted": STORE_TRUSTED + ["model of syncNode / sendNodesRemote / sendNodesLocal / SendNode over two store models: coq/theories/Sync/Model.v (hand-written; its catch-up from the two "
+                                "dumps taken at the end of an outage must reproduce the two dumps observed after the link came back)"],
+    "assumptions": STORE_ASSUME + ["during an outage each side writes only to nodes that exist on that side (points for a node without an edge are not visible in a dump)",
+                                   "XOR-of-CRC-32 hash equality is taken as content equality (docs/ref/sync.md accepts collisions)",
+                                   "NATS reconnection, timer races and the goroutines of the sync client are not modelled: catch-up is modelled as a sequence of syncNode passes with no concurrent writes"],
+    "level_text": "proof (partial): C02_exchange_join (the two comparison loops leave both sides with the identity-wise newest point of either side, for all point lists) and its corollaries "
+                  "are Coq theorems; the recursive catch-up (hash short-cut, descent into children, transfer of nodes missing on one side) is an executable model validated on every run "
+                  "against two real linked instances, and the convergence / no-lost-write specification is evaluated on the real dumps",
+    "level_note": "partial: convergence of the whole recursion is established by correspondence on generated histories, not by a theorem; link-level behaviour (reconnects, timers, "
+                  "callback goroutines) cannot be exhibited by the model",
+}
+
 WIP = "not yet built in this round; the design (DESIGN.md section 6) claims it and the check is being added"
 NOT_CLAIMED = {pid: WIP for pid in ["C%02d" % i for i in range(1, 21)] if pid not in AREAS}
 HOOK_COMMITS = ["6f869d9", "e935e32"]
